@@ -758,6 +758,7 @@ def check_key_traits(run, ctx):
         run.bad('C02-T1', 'blanket-impl/fail-closed', 'fail-closed: blanket impl of CacheableKey not found')
     else:
         ex = Expr(body)
+        tmpl_problem = None
         fmts = [t for b, t in body.calls() if callee_name(t).startswith('core::fmt::rt::Argument::new_')]
         okk = len(fmts) == 1 and callee_name(fmts[0]) == 'core::fmt::rt::Argument::new_debug'
         if okk:
@@ -771,7 +772,17 @@ def check_key_traits(run, ctx):
                     r = strip_casts(r[2][0])
                 return r[0] == 'call' and r[1] == 'alloc::fmt::format'
             okk = okk and bool(rets) and all(_is_plain_format(r) for r in rets)
-        if okk and body.impl_self == 'T':
+            from .fmt_template import template_of, lossy
+            for r in rets:
+                tpl = template_of(r)
+                phs = [x[1] for x in (tpl or []) if x[0] == 'ph']
+                if tpl is None or len(phs) != 1 or phs[0]['arg'] not in (None, 0):
+                    tmpl_problem = 'the format template of the default key could not be read as one placeholder'
+                elif lossy(phs[0]):
+                    tmpl_problem = 'the default key is rendered with a lossy format spec: ' + lossy(phs[0])
+        if okk and tmpl_problem:
+            run.bad('C02-T1', 'blanket-impl/lossy-format', tmpl_problem, site=body.name, oracle='format!("{:?}", self) with default options')
+        elif okk and body.impl_self == 'T':
             run.ok('C02-T1', 'blanket-impl', 'to_cache_key = format!("{:?}", self)')
         else:
             run.bad('C02-T1', 'blanket-impl/not-debug', 'the default cache key must be exactly the Debug rendering of the value (self-delimiting for strings and chars)', site=body.name,
